@@ -83,6 +83,9 @@ def inputs(tier, s):
             out.append(("damaged-valid", t))
         else:
             out.append(("valid", r.choice(valid)))
+    for i in range(n // 5):
+        r = random.Random("%d/c05s/%d" % (s, i))
+        out.append(("string-literal", gen_tokens.string_literal_input(r)))
     if tier == "thorough":
         for size in (8192, 32768, 65000):
             r = random.Random("%d/c05big/%d" % (s, size))
